@@ -551,7 +551,7 @@ R6_TAILS = [
     (r'\.\s*iter\s*\(\s*\)\s*\.\s*any\s*\(', 'vf_any'),
     (r'\.\s*into_iter\s*\(\s*\)\s*\.\s*all\s*\(', 'vf_all_owned'),
     (r'\.\s*iter\s*\(\s*\)\s*\.\s*flat_map\s*\(', 'vf_flat_map', r'\)\s*\.\s*collect\s*::\s*<\s*Vec\s*<\s*_\s*>\s*>\s*\(\s*\)'),
-    (r'\.\s*into_iter\s*\(\s*\)\s*\.\s*filter_map\s*\(', 'vf_filter_map_owned', r'\)\s*\.\s*collect\s*\(\s*\)'),
+    (r'\.\s*into_iter\s*\(\s*\)\s*\.\s*filter_map\s*\(', 'vf_filter_map_owned', r'\)\s*\.\s*collect\s*(::\s*<\s*Vec\s*<\s*_\s*>\s*>)?\s*\(\s*\)'),
 ]
 
 
@@ -603,7 +603,7 @@ def r6_tails(text, notes):
     if m:
         rs = _receiver_start(mask, m.start())
         recv = text[rs:m.start()].strip()
-        text = text[:rs] + 'vf_choose(%s)' % recv + text[m.end():]
+        text = text[:rs] + 'vf_choose(&%s)' % recv + text[m.end():]
         notes.add('R6', '`<vec>.choose(&mut rand::thread_rng())` lowered to vf_choose(<vec>)')
     mask = mask_text(text)
     m = re.search(r'\.\s*chunks\s*\(', mask)
@@ -706,7 +706,22 @@ def r15_closure_patterns(text, notes):
     n = 0
     while True:
         mask = mask_text(text)
-        m = re.search(r'\|\s*(\([^|()]*\))\s*\|', mask)
+        m0 = re.search(r'\|\s*\(', mask)
+        m = None
+        while m0:
+            po = m0.end() - 1
+            pc = match_close(mask, po)
+            k = _next_sig(mask, pc + 1)
+            pr = _prev_sig(mask, m0.start())
+            if k < len(mask) and mask[k] == '|' and (pr < 0 or mask[pr] in '(,='):
+                class _M:
+                    pass
+                m = _M()
+                s0, e1, e0 = m0.start(), pc + 1, k + 1
+                m.start = lambda g=0, s0=s0, po=po: s0 if g == 0 else po
+                m.end = lambda g=0, e0=e0, e1=e1: e0 if g == 0 else e1
+                break
+            m0 = re.compile(r'\|\s*\(').search(mask, m0.end())
         if not m:
             break
         pat = text[m.start(1):m.end(1)]
